@@ -24,7 +24,7 @@ var fragFieldNames = []*gen.Val{
 }
 
 var fragStrings = []string{"b", "foo", "bar", "az", "ab", "aaa", "The Right Way", "it's", "x,y", "a, b", " lead", "trail ", "100%", "a_b", "back\\slash",
-	"O'Neil", "''", "semi;colon", "--c", "/*c*/", "é", "日本", "Z", "z", "zz", "", "5", "1.5", "NULL", "and", "x y z", "(p)", "[1 TO 2]", "q?", "s*r", "a\\", "tab\there", "new\nline"}
+	"O'Neil", "''", "semi;colon", "a||b", "x && y", "São Paulo", "日本(語)", "€5+tax", "00501", "09999", "10", "2.50", "1e3", "-7", "--c", "/*c*/", "é", "日本", "Z", "z", "zz", "", "5", "1.5", "NULL", "and", "x y z", "(p)", "[1 TO 2]", "q?", "s*r", "a\\", "tab\there", "new\nline"}
 
 func genNumVal(rt *rapid.T) *gen.Val {
 	if rapid.IntRange(0, 2).Draw(rt, "isfloat") == 0 {
@@ -42,6 +42,11 @@ func genStrVal(rt *rapid.T) *gen.Val {
 		s = rapid.SampledFrom(fragStrings).Draw(rt, "s")
 	} else {
 		s = gen.GenHostileString(true).Draw(rt, "hs")
+	}
+	// the same string may be written three ways: bare word, quoted phrase, or a
+	// bare word with every special character escaped
+	if rapid.IntRange(0, 3).Draw(rt, "escaped") == 0 && s != "" && !gen.IsNumeric(s) && !gen.IsKeyword(s) && utf8.ValidString(s) {
+		return gen.EscapedWord(s)
 	}
 	return gen.StringVal(s)
 }
